@@ -46,32 +46,43 @@ def consumed(p, buf=P("src")):
 def r1(ctx):
     rep = Report("C09.R1", "the request header is exactly 24 bytes: nine big-endian reads at the protocol's offsets, assigned to the protocol's fields; the length guard uses the same 24", floor=10)
     f = ctx.facts
-    b = f.one(CODEC + "::parse_header")
+    # decided on the public decode: a fresh codec is given exactly one well-formed header whose (small) body has not arrived;
+    # the path that answers "need more bytes" has consumed the header and recorded its fields — however the bytes are read
+    # (get_uN calls, or a 24-byte view indexed byte by byte and advanced past)
+    b = f.one(DECODE)
     rep.analysed(b)
     I = Interp(f, models=BUF_MODELS)
+    src = P("src")
 
     def seeds(st):
-        assume(st, {("len0", P("src")): 1}, lo=24)
+        assume(st, {("len0", src): 1}, eq=24)
+        assume(st, {("bufread", src, 0, 1): 1}, eq=0x80)
+        assume(st, {("bufread", src, 1, 1): 1}, eq=0)
+        assume(st, {("bufread", src, 5, 1): 1}, eq=0)
+        assume(st, {("bufread", src, 8, 4): 1}, lo=1, hi=100)
+        assume(st, {F(P("self"), "item_size_limit"): 1}, lo=1000, hi=2**32 - 1)
 
-    paths = I.run(b, [P("self"), P("src")], seeds=seeds)
+    paths = I.run(b, [dispatch.codec_self(None, state="None"), src], seeds=seeds)
     rep.evaluations += len(paths)
     done = False
     for p in paths:
-        reads = [e for e in p.events if e.kind == "buf" and e.extra.get("op") == "read" and e.extra["buf"] == P("src")]
-        if not reads:
+        if dispatch.outcome_of(p.ret) != "None" or p.cut:
             continue
-        hdr = p.state.mem.get(("H", P("self")))
+        hdr = p.state.mem.get(("L", 1, 1))  # the codec value after the call (decode's own frame, its self argument)
         hv = hdr.get("header") if isinstance(hdr, Struct) else None
-        if done:
+        if hv is None or done:
             continue
         done = True
-        rep.check(len(reads) == 9 and consumed(p) == 24, "header:24-bytes", "9 reads, 24 bytes", "parse_header makes %d reads consuming %s bytes (the binary protocol header is 24 bytes)" % (len(reads), short(consumed(p))), b.loc())
+        rep.check(consumed(p) == 24, "header:24-bytes", "the header takes 24 bytes of the stream", "reading the header consumes %s bytes (the binary protocol header is 24 bytes)" % short(consumed(p)), b.loc())
         for name, off, w in HEADER_FIELDS:
             v = field_of(hv, name) if hv is not None else None
-            ok = v == ("bufread", P("src"), off, w)
+            if isinstance(v, int) and (name, v) in (("magic", 0x80), ("opcode", 0), ("data_type", 0)):
+                ok = True  # folded to the seeded value of that very byte
+            else:
+                ok = v == ("bufread", src, off, w)
             rep.check(ok, "header:" + name, "%s = bytes[%d..%d]" % (name, off, off + w), "header field %s is read from %s (protocol: offset %d, %d bytes)" % (name, short(v, 80), off, w), b.loc())
     if not done:
-        rep.bad("header:no-read-path", "cannot find the path of parse_header that reads the header", b.loc())
+        rep.bad("header:no-read-path", "cannot find the path of decode that reads a header and waits for its body", b.loc())
     # the guard: with 23 bytes buffered nothing is read; with 24 the header is read
     d = f.one(DECODE)
     for n, expect_read in ((23, False), (24, True)):
